@@ -23,7 +23,9 @@ LEVEL_TEXT = (
     "call by call, plus base-tree + final-operation cases issued with every preferred-engine option combination.  After "
     "each call: every leaf / materialization of the operand trees that appears (by name) in the result must be the "
     "identical object; a transfer's result must have the operand's content in the requested engine (also there-and-back); "
-    "materializing a leaf or a materialization must add no Materialization node."
+    "materializing a leaf or a materialization must add no Materialization node.  After each materialization the tree "
+    "is processed (so the node carries a payload) and factories are called directly on the bare cached node; every "
+    "program is repeated over twin leaves (same names, other rows) in the same engines."
 )
 LEVEL_NOTE = "trusts: names are unique per case (harness-chosen), ev_multi labels, harness Processor for executing multi-engine results; Processor.process itself is excluded (it re-creates markers by design)"
 RULE = (
